@@ -12,7 +12,7 @@ TYPE_NAMES = {"int": "Int32", "bigint": "Int64", "text": "Utf8", "bool": "Boolea
 SWITCHES = {
     "in_two_valued": ("in_null", "in-any-all-two-valued"),
     "scalar_count_null_on_empty": ("scalar_count_zero", "correlated-count-null-on-empty"),
-    "lateral_null_outer_dropped": ("lateral_null_corr", "lateral-null-correlation-drops-outer-row"),
+    "null_correlation_empty_set": ("null_correlation", "null-correlation-treated-as-empty-set"),
 }
 
 UNSUPPORTED_MARKERS = ("Not yet implemented", "not yet supported", "not implemented", "Not implemented")
@@ -129,17 +129,27 @@ def judge(chk, db, q, sql, step, case, tags, prop_sig_extra=None):
         if step.get("mismatch"):
             chk.count("schema_value_mismatch_seen")
         return "ok"
-    # disagreement: try each deviation switch whose trigger fired in the specification run
-    for sw, (trigger, finding) in SWITCHES.items():
-        if trigger in spec["triggers"]:
-            dev = model_eval(db, q, switches=(sw,))
-            if dev["kind"] == "rows":
-                ok2, _ = compare_rows(q, dev["full_rows"], rows)
-                if ok2:
-                    sig = {"kind": "model-switch", "switch": sw}
-                    if chk.violation(sig, f"{why}\n{sql}", replay):
-                        return "violation"
-                    return "known"
+    # disagreement: try each deviation switch whose trigger fired in the specification run (singly, then jointly)
+    fired = [sw for sw, (trigger, finding) in SWITCHES.items() if trigger in spec["triggers"]]
+    combos = [(sw,) for sw in fired] + ([tuple(fired)] if len(fired) > 1 else [])
+    undecidable = False
+    for combo in combos:
+        dev = model_eval(db, q, switches=combo)
+        if dev["kind"] == "unspecified":
+            undecidable = True
+        if dev["kind"] == "rows":
+            ok2, _ = compare_rows(q, dev["full_rows"], rows)
+            if ok2:
+                res = "known"
+                for sw in combo:
+                    if chk.violation({"kind": "model-switch", "switch": sw}, f"{why}\n{sql}", replay):
+                        res = "violation"
+                return res
+    if undecidable:
+        # a recorded deviation's trigger fired but the model cannot evaluate the deviating variant (too large):
+        # neither "known" nor "new" can be claimed
+        chk.inconc("disagreement on a query that triggers a recorded deviation the model could not re-evaluate")
+        return "skip"
     sig = {"kind": "wrong-result", "features": sorted(t for t in tags if t in SIG_TAGS)[:6]}
     exp = spec["full_rows"]
     chk.violation(sig, f"{why}\n{sql}\nexpected({len(exp)} rows before LIMIT)={exp[:6]}\nengine({len(rows)})={rows[:6]}", replay)
